@@ -93,6 +93,30 @@ impl<T: UciTx + Send + Sync + 'static> UciEngine for Engine<T> {
     }
 }
 
+/// Verification hooks (not part of the API)
+#[cfg(inkayaku_verif)]
+pub mod verif {
+    pub use crate::engine::heuristic::verif::{draw_score, is_checkmate, score_from_value, static_eval, win_score};
+    pub use crate::engine::search::verif::{AbortMode, set_abort_plan, VerifSearch};
+    pub use crate::engine::table::VerifTable;
+    pub use crate::engine::zobrist_history::VerifHistory;
+}
+
+#[cfg(inkayaku_verif)]
+impl<T: UciTx + Send + Sync + 'static> Engine<T> {
+    /// true once the search thread has terminated (normally only after `quit`)
+    pub fn verif_search_thread_finished(&self) -> bool {
+        self.search_handle.as_ref().map_or(true, JoinHandle::is_finished)
+    }
+
+    /// FEN of the board the idle search thread currently holds
+    pub fn verif_dump_fen(&self) -> Option<String> {
+        let (tx, rx) = channel();
+        self.search_tx.send(SearchMessage::VerifDumpFen(tx)).ok()?;
+        rx.recv().ok()
+    }
+}
+
 #[cfg(test)]
 mod test {
     use std::str::FromStr;
